@@ -4,7 +4,7 @@ from .C02 import e2_jobs, META as _M
 
 META = dict(_M)
 META["trusted_base"] = _M["trusted_base"] + ["E1 pyvc VC generator (qverif/pyvc)"]
-CLASSES = ["contracts.C03_e2:VarObjectRoundTrip", "contracts.C03_e2:FlagOffObjectRoundTrip", "contracts.C03_e2:GradientIndicator"]
+CLASSES = ["contracts.C03_e2:VarObjectRoundTrip", "contracts.C03_e2:FlagOffObjectRoundTrip", "contracts.C03_e2:GradientIndicator", "contracts.C03_e2:SetQOperationsIndexing"]
 
 
 def job_index(kind, direction, seed=0, timeout_s=10.0):
